@@ -20,7 +20,7 @@ func randomClaims(c *Ctx, kind string, plain bool) (jwt.Claims, nkeys.KeyPair) {
 		g.fill(reflect.ValueOf(x).Elem(), 0, "")
 		x.Subject = pubOf(kpN('O', n))
 		if c.R.Chance(80) {
-			x.AccountServerURL = []string{"", "http://h.example/jwt/v1", "nats://x"}[c.R.Intn(3)]
+			x.AccountServerURL = []string{"", "http://h.example/jwt/v1", "nats://x", "https://accounts.example.com/jwt/v1/", "https://h.example//", "HTTP://H.example/a?b=c#d", "https://h.example/a%20b/"}[c.R.Intn(7)]
 		}
 		cl = x
 	case "account":
